@@ -260,6 +260,9 @@ func (w *world) classes(v *harness.Verdict, chain, filter string) {
 			}
 			used["ok:key:"+e.c.Key.Kind] = true
 		}
+		for _, f := range w.ignoredFeatures() {
+			used["ok:"+f] = true
+		}
 		if w.inPool(w.chain[len(w.chain)-1].der) != nil {
 			used["ok:root-present"] = true
 		} else {
@@ -282,4 +285,55 @@ func clampOff(s int64) int64 {
 		return 2
 	}
 	return s
+}
+
+// ignoredFeatures lists, in a fixed order, what the submitted chain has that the log ignores on purpose
+// or that only affects how the fork finds issuers: none of it is named by a clause of the statement, so
+// none of it may change the verdict. From ground truth.
+func (w *world) ignoredFeatures() []string {
+	has := map[string]bool{}
+	lm := w.metas[w.chain[0].c]
+	// the path the log validates: the submission plus, when it does not end in the pool, the trusted issuer
+	var ms []*meta
+	for _, e := range w.chain {
+		ms = append(ms, w.metas[e.c])
+	}
+	if last := w.chain[len(w.chain)-1]; w.inPool(last.der) == nil {
+		for _, tc := range w.trusted {
+			if w.issuedByTrusted(last, tc) && w.metas[tc] != nil {
+				ms = append(ms, w.metas[tc])
+				break
+			}
+		}
+	}
+	for i, m := range ms {
+		if i >= 1 && m.pathLen >= 0 && i-1 > m.pathLen {
+			has["ignored:pathlen-exceeded"] = true
+		}
+		if i >= 1 && m.nameCons && lm.node < 0 {
+			has["ignored:name-constraint-violated"] = true
+		}
+		if i >= 1 && len(m.ekus) == 1 && m.ekus[0] != "CT" {
+			nested := false
+			for _, le := range lm.ekus {
+				nested = nested || le == m.ekus[0]
+			}
+			if !nested {
+				has["ignored:eku-not-nested"] = true
+			}
+		}
+		if i >= 1 && m.crit {
+			has["ignored:critical-unknown-ext-on-ca"] = true
+		}
+		if m.badAKI {
+			has["aki-matches-nothing"] = true
+		}
+	}
+	var out []string
+	for _, f := range []string{"ignored:pathlen-exceeded", "ignored:name-constraint-violated", "ignored:eku-not-nested", "ignored:critical-unknown-ext-on-ca", "aki-matches-nothing"} {
+		if has[f] {
+			out = append(out, f)
+		}
+	}
+	return out
 }
